@@ -943,6 +943,10 @@ pub fn request_ips() -> Vec<Option<String>> {
         Some("8.8.8.8"),
         Some("2001:db8::1"),
         Some("::1"),
+        // IPv4-mapped IPv6 (dual-stack listeners): an IPv6 address, outside every IPv4 range (cidr semantics,
+        // which the flat predicate shares); must survive serialisation as written
+        Some("::ffff:10.1.2.3"),
+        Some("::ffff:192.168.1.7"),
     ]
     .iter()
     .map(|h| h.map(|s| s.to_string()))
